@@ -3,6 +3,8 @@
 package kcache
 
 import (
+	"context"
+
 	"github.com/boz/kcache/filter"
 	"github.com/boz/kcache/zzverif"
 )
@@ -180,5 +182,59 @@ func VerifC08_Depth() {
 		zzverif.Reach("C08/depth-ready")
 	} else {
 		zzverif.Reach("C08/depth-not-ready")
+	}
+}
+
+// VerifC08_API: the deferred subscription as the public API builds it
+// (publisher.SubscribeForFilter, which is also what CloneForFilter and every join use),
+// with the concrete filters a caller is likely to hand to Refilter (accept-everything,
+// accept-nothing) next to an arbitrary one. At quiescence Ready() is closed iff the parent
+// is ready and a filter was supplied, and then the cache is the parent's content under
+// the filter most recently set.
+func VerifC08_API() {
+	K := zzverif.Param("K", 3)
+	e := &vFilterEnv{deferred: true, cur: filter.All()}
+	e.parent = newFakeSub(4 * K)
+	stop := make(chan struct{})
+	e.pcache = newCache(context.Background(), vLog{}, stop, filter.Null())
+	e.parent.cacheOverride = e.pcache
+	n0 := zzverif.NondetInt("parent.n0", 0, zzverif.Param("P0", 1))
+	for i := 0; i < n0; i++ {
+		e.parentChange()
+	}
+	pub := newPublisher(vLog{}, e.parent)
+	s, err := pub.SubscribeForFilter()
+	zzverif.Assert(err == nil, "harness/subscribe")
+	e.fs = s.(*filterSubscription)
+	e.filters = append(e.filters, e.cur)
+	go func() {
+		if _, ok := <-e.fs.Events(); ok {
+			zzverif.Assert(vClosed(e.fs.Ready()), "C08/no-event-before-ready")
+		}
+	}()
+	for i := 0; i < K; i++ {
+		switch zzverif.NondetInt("action", 0, 4) {
+		case 0:
+			if e.pready {
+				zzverif.Assume(false)
+			}
+			e.parentReady()
+		case 1:
+			e.parentChange()
+		case 2:
+			e.refilter(filter.Null()) // accept everything
+		case 3:
+			e.refilter(filter.All()) // accept nothing
+		default:
+			e.refilter(symFilter{1})
+		}
+		if zzverif.NondetInt("settle", 0, 1) == 1 {
+			zzverif.Quiesce()
+		}
+	}
+	zzverif.Quiesce()
+	e.observe("C08")
+	if vClosed(e.fs.Ready()) {
+		zzverif.Reach("C08/api-ready")
 	}
 }
